@@ -66,3 +66,66 @@ def instance_defs(prefix, inst, limits, idx=None):
         lines.append(
             f'Definition {prefix}care : point -> bool := mem_pt {points(c)}.')
     return '\n'.join(lines)
+
+
+# ------------------------------------------------------------------ formulas
+class Unsupported(Exception):
+    """The parsed formula left the fragment of L5Cover/ListExpr.v."""
+
+
+_CMP = {'=': 'CEq', '#': 'CNe', '!=': 'CNe', '/=': 'CNe', '<': 'CLt',
+        '<=': 'CLe', '=<': 'CLe', '>': 'CGt', '>=': 'CGe'}
+_AND = ('/\\', '&', '&&')
+_OR = ('\\/', '|', '||')
+_NOT = ('~', '!')
+_IMP = ('=>', '->')
+_IFF = ('<=>', '<->')
+
+
+def term_lit(t, index):
+    ty = getattr(t, 'type', None)
+    if ty == 'var':
+        if t.value not in index:
+            raise Unsupported(f'unknown variable {t.value}')
+        return f'(TVar {index[t.value]})'
+    if ty == 'num':
+        return f'(TNum {z(int(t.value))})'
+    raise Unsupported(f'term {type(t).__name__} {getattr(t, "operator", "")}')
+
+
+def expr_lit(t, index):
+    """Gallina `expr` literal of a syntax tree returned by omega's parser."""
+    ty = getattr(t, 'type', None)
+    if ty == 'bool':
+        v = str(t.value).upper()
+        if v == 'TRUE':
+            return 'ETrue'
+        if v == 'FALSE':
+            return 'EFalse'
+        raise Unsupported(f'constant {t.value}')
+    if ty != 'operator':
+        raise Unsupported(f'node {type(t).__name__}')
+    op, xs = t.operator, t.operands
+    cls = type(t).__name__
+    if cls == 'Unary' and op in _NOT:
+        return f'(ENot {expr_lit(xs[0], index)})'
+    if cls == 'Comparator' and op in _CMP:
+        return (f'(ECmp {_CMP[op]} {term_lit(xs[0], index)} '
+                f'{term_lit(xs[1], index)})')
+    if cls == 'Binary':
+        if op in _AND + _OR + _IMP + _IFF:
+            c = ('EAnd' if op in _AND else 'EOr' if op in _OR
+                 else 'EImp' if op in _IMP else 'EIff')
+            return f'({c} {expr_lit(xs[0], index)} {expr_lit(xs[1], index)})'
+        if op == '\\in':
+            r = xs[1]
+            if getattr(r, 'operator', None) != '..':
+                raise Unsupported('\\in without a range')
+            return (f'(EIn {term_lit(xs[0], index)} '
+                    f'{term_lit(r.operands[0], index)} '
+                    f'{term_lit(r.operands[1], index)})')
+    raise Unsupported(f'{cls} {op}')
+
+
+def exprs(ls):
+    return '[' + ';'.join(ls) + ']'
